@@ -16,17 +16,21 @@
      unambiguous     tables passing `check_complete` exist only for unambiguous grammars (so a
                      conflict-free report validated by the checker cannot hide an ambiguity).
    run_sound + run_complete: accepted <-> derivable, and the tree is THE derivation given.
-   The generator lr1.py is covered per instance: harness/props/c08.py applies the verified
-   checkers to the tables and item sets lr1.py builds on every run.
-
-   GAP (META.level_note): `error_not_early` (no token is shifted unless some sentence
-   continues) is not proved -- it is false for grammars with unproductive nonterminals
-   (candidate finding lr1-error-reported-late:unproductive-nonterminals) and is tested
-   against an Earley recogniser for the others; "conflicts are reported whenever the
-   construction is not deterministic" is covered only through check_complete failing
-   (or Earley finding two derivations) on a table reported conflict-free. *)
+     error_not_early  with `check_sound`, `check_early` (item cores valid) and `check_productive`
+                     (every nonterminal derives a terminal string; rank certificate), an error at
+                     index i means that tokens 0..i-1 DO start a sentence: no token is shifted
+                     unless some sentence continues;
+     error_position_exact  error_not_early + error_not_late: the error is raised exactly at the
+                     first token that no sentence can continue with;
+     error_not_early_refuted  without productivity the statement is false: S -> a S passes every
+                     other checker, lr1.py reports no conflict, `a a a` is rejected at index 3 and
+                     the language is empty (finding lr1-error-reported-late:unproductive-nonterminals).
+   The generator lr1.py is covered per instance: harness/props/c08.py applies the verified checkers
+   to the tables and item sets lr1.py builds on every run (translation validation, not a proof
+   about lr1.py); "conflicts are reported whenever the construction is not
+   deterministic" is covered through check_complete/unambiguous on conflict-free reports. *)
 From Coq Require Import NArith List.
-Require Import EmbossV.LR.Driver EmbossV.LR.Sound EmbossV.LR.Complete EmbossV.LR.Examples.
+Require Import EmbossV.LR.Driver EmbossV.LR.Sound EmbossV.LR.Complete EmbossV.LR.Early EmbossV.LR.Examples.
 Import ListNotations.
 
 Theorem run_sound : forall G T C fuel toks t,
@@ -73,3 +77,31 @@ Theorem unambiguous : forall G T I F t1 t2 toks,
   check_complete G T I F = true ->
   derives G (g_start G) t1 0%nat toks -> derives G (g_start G) t2 0%nat toks -> t1 = t2.
 Proof. exact Complete.unambiguous. Qed.
+
+Theorem error_not_early : forall G T C I R fuel toks c i tok st e,
+  check_sound G T C = true -> check_early G T I = true -> check_productive G R = true ->
+  run T fuel toks = Rejected c i tok st e ->
+  exists suffix t, derives G (g_start G) t 0%nat (firstn i toks ++ suffix).
+Proof. exact Early.error_not_early. Qed.
+
+Theorem error_position_exact : forall G T C I F R fuel toks c i tok st e,
+  check_sound G T C = true -> check_complete G T I F = true ->
+  check_early G T I = true -> check_productive G R = true ->
+  run T fuel toks = Rejected c i tok st e ->
+  (exists suffix t, derives G (g_start G) t 0%nat (firstn i toks ++ suffix)) /\
+  (forall toks' t, firstn (S i) toks' = firstn (S i) toks -> ~ derives G (g_start G) t 0%nat toks').
+Proof. exact Early.error_position_exact. Qed.
+
+Theorem error_not_early_nonvacuous :
+  exists G T C I R fuel toks c i tok st e,
+    check_sound G T C = true /\ check_early G T I = true /\ check_productive G R = true /\
+    run T fuel toks = Rejected c i tok st e /\ (0 < i)%nat.
+Proof. exact Examples.error_not_early_nonvacuous. Qed.
+
+Theorem error_not_early_refuted :
+  exists G T C I F fuel toks c i tok st e,
+    check_sound G T C = true /\ check_complete G T I F = true /\ check_early G T I = true /\
+    (forall R, check_productive G R = false) /\
+    run T fuel toks = Rejected c i tok st e /\
+    ~ exists suffix t, derives G (g_start G) t 0%nat (firstn i toks ++ suffix).
+Proof. exact Examples.error_not_early_refuted. Qed.
